@@ -65,4 +65,9 @@ def run(ck):
     # chains of derived futures (spec/FutureChain.tla): model checked, TLC behaviours replayed in real map-executor
     # stacks at the granularity of the futures' locks, random executions judged by ChainObs (= FutureObs per layer + chain)
     chain.run(ck, quick, rng)
+    if not quick:
+        # the repository's own test suite (real threads, real time) recorded through class-level wrappers and validated
+        # by TLC against spec/ApiObs.tla (order-only clauses)
+        from .. import suitecheck
+        suitecheck.run(ck, ("C02_",))
     ck.assumptions += ["one future per execution, 20 entry points, clients: <=2 cancellers, <=2 callback adders, <=2 waiters"]
